@@ -31,6 +31,34 @@ CLAIMS = {
    text="Contracts on the real address constructors/predicates of package common (IsInChainScope, Location.Context/BytePrefix, ...) discharged for all inputs by SMT from go/ssa of the working tree: classification agrees with the single spec predicate internal(a,loc) <=> ctx(loc)=ZONE and a[0]=prefix(loc). Per-constructor, unbounded in the input.",
    note="Trusted: gvc SSA->SMT translation, solvers, library models (math/big, uint256), inferred frames for calls without contract. Not decided: call sites outside the listed functions.",
    design="4 (C16)", technique="contract-based deductive verification: weakest-precondition VCs from go/ssa, discharged by z3/cvc5"),
+ "C04": dict(
+   text="The destination ETX queue in StateDB (a trie used as a finite map; its map behaviour is the assumed interface contract of state.Trie, expressed with ghost maps trieHas/trieVal): PopETX on an empty queue changes no cell and returns (nil,nil); ReadETX, GetOldestIndex and GetNewestIndex never write; a successful PushETX leaves a value under the tail-index key; the index getters return fresh non-negative numbers. Discharged per exit on the real functions.",
+   note="Assumed: Trie.TryGet/TryUpdate/TryDelete behave as a finite map (C18 is not proved), rlp encode/decode frames. Not under contract: FIFO order across pushes/pops as a sequence (needs an inductive queue invariant over key strings), FilterToSub routing, Process' pop-and-compare, cross-chain routing (slice.go, headerchain.go) - those parts of the property are not decided.",
+   design="4 (C04)", technique="contract-based deductive verification with ghost finite-map state for the trie interface, per-exit VCs from go/ssa, z3/cvc5"),
+ "C06": dict(
+   text="ValidateState accepts (returns nil) only if the header's utxoRoot equals the hash of the multiset that execution produced, and gasUsed/stateUsed/receipt, EVM, ETX-set roots, state size and uncled entropy equal the recomputed values (P-accept clauses discharged on the real function for every exit); a coinbase lockup whose deletion is recorded in the pending batch reads as absent in ReadCoinbaseLockup, and DeleteCoinbaseLockup records the deletion.",
+   note="Assumed: MultiSet.Hash, DeriveSha, IntermediateRoot, ETXRoot are deterministic read-only functions (trusted contracts); ethdb.Batch ghost contract (backed by C17). Not under contract: that the multiset passed in is exactly spent/created outputs (Process), Finalize, the worker path.",
+   design="4 (C06)", technique="contract-based deductive verification: accept => equality clauses per exit, VCs from go/ssa, z3/cvc5"),
+ "C07": dict(
+   text="P-accept contract on the real BlockValidator.ValidateState: a nil result implies header.gasUsed == usedGas, header.stateUsed == usedState, receiptHash == DeriveSha(receipts), evmRoot == IntermediateRoot, quaiStateSize == trie size, utxoRoot == multiset hash, etxSetRoot == ETXRoot, outboundEtxHash == DeriveSha(etxs), uncledEntropy == UncledLogEntropy(block); discharged for every exit of the function.",
+   note="Assumed (trusted, deterministic, read-only): DeriveSha, IntermediateRoot, ETXRoot, GetQuaiTrieSize, MultiSet.Hash, UncledLogEntropy, CopyHeader field equality. Determinism of re-execution itself (Process as a function of parent state and block) is not decided.",
+   design="4 (C07)", technique="contract-based deductive verification: accept => equality clauses per exit, VCs from go/ssa, z3/cvc5"),
+ "C09": dict(
+   text="P-accept contract on the real HeaderChain.verifyHeader (187 blocks, 68 exits): a nil result implies header.Time >= parent.Time, for non-uncles header.Time <= now + 15 s, and header.Number(ctx) == (genesis parent ? 0 : parent.Number(ctx)) + 1 in the node's context; TotalLogEntropy writes to no pre-existing number (frame 'modifies nothing' discharged on the real function).",
+   note="Assumed (trusted frames/contracts): CalcOrder, WorkShareLogEntropy, IsGenesisHash, NodeLocation (length is a function of the chain object), database readers GetHeaderByHash/GetBlock/GetBlockByHash/GetBlockNumber and ComputeExpansionNumber touch only caches, WorkObject.Hash is a function of the header object within one call. Not under contract: the entropy accumulation formulas (DeltaLogEntropy, UncledDeltaLogEntropy), difficulty/gas-limit/base-fee conjuncts, fork choice.",
+   design="4 (C09)", technique="contract-based deductive verification: accept => conjunct clauses per exit on a large function with trusted callee frames, VCs from go/ssa, z3/cvc5"),
+ "C13": dict(
+   text="Pending-view contracts on the real lockup accessors: ReadCoinbaseLockup returns (0,0,0) for a lockup whose deletion the pending batch records, whatever the database holds, and never writes; DeleteCoinbaseLockup records the deletion in a tracking batch; CalculateReward returns a fresh copy of the Quai or Qi reward of its arguments.",
+   note="Assumed: CoinbaseLockupKey is a function of its arguments (trusted), ethdb.Batch ghost contract (C17). Not under contract: RedeemLockedQuai / AddNewLock loops, the reward split among work shares, lockup-contract execution.",
+   design="4 (C13)", technique="contract-based deductive verification with ghost pending-view state, VCs from go/ssa, z3/cvc5"),
+ "C15": dict(
+   text="(b) Memory metering: every memory-size function of the EVM jump table (memorySha3 ... memoryLog, memoryMcopy, memoryCall/DelegateCall/StaticCall, memoryCreate/2) returns exactly offset+length of the documented stack operands or reports overflow (functional postconditions for all 256-bit operands); calcMemSize64(WithUint) likewise; memoryGasCost charges C(w)-lastGasCost with C(w)=3w+w*w/512 and refuses sizes above 0x1FFFFFFFE0 (nonlinear 64-bit arithmetic, no overflow); Memory.Resize grows to max(len,size). (a) No-panic: parseScriptPush and the four Extract...FromCoinbase parsers are panic-free for every byte string (all index/slice/nil obligations discharged) and a successful push stays inside its script.",
+   note="Not under contract: the jump-table invariant (every op with memorySize has a dynamicGas that charges it) - known defect: ETX has memoryETX but no dynamicGas (DESIGN 4.0); protobuf/rlp decoders, p2p validators, hexutil; allocation inside libraries; time. Assumed: uint256/binary library models.",
+   design="4 (C15)", technique="contract-based deductive verification: functional postconditions and implicit safety obligations, VCs from go/ssa, z3/cvc5 (nonlinear mode for the fee)"),
+ "C20": dict(
+   text="QuaiToQi and QiToQuai return exactly quo(qiReward*amount, quaiReward) resp. quo(quaiReward*amount, qiReward) at the header, difficulty and exchange rate they are given, write nothing and return a fresh number (functional postconditions on the real functions); SMT lemmas (nonlinear): a round trip Quai->Qi->Quai or Qi->Quai->Qi at a fixed positive rate never yields more than the start, and truncation only reduces. EVM.create keeps no ETX queued by a failed creation (shared with C12; the ErrCodeStoreOutOfGas exit is a known finding).",
+   note="Assumed: CalculateQuaiReward / CalculateQiReward are deterministic read-only non-zero functions of (header, difficulty[, rate]) (trusted: LogBig and the multi-algorithm adjustment are outside the subset). Not under contract: prime repricing loops in Slice.Append, ApplyCubicDiscount (big.Float), FindMinDenominations sum, refund on slippage in Process.",
+   design="4 (C20)", technique="contract-based deductive verification: functional postconditions over big.Int models plus nonlinear SMT lemmas, z3/cvc5"),
 }
 
 NA = {
